@@ -12,7 +12,9 @@
    [handle_commit_prefix] / [verify_commit_prefix] = the pinned tree before the repairs. *)
 From Coq Require Import List NArith Bool.
 From Coq Require Import Permutation.
-From C18 Require Import Model Proofs ProofsMore.
+From Common Require Import Bytes.
+From GrandpaPayload Require Import Payload.
+From C18 Require Import Model Proofs ProofsMore ProofsPayload.
 Import ListNotations.
 Local Open Scope N_scope.
 
@@ -253,3 +255,34 @@ Proof.
   destruct nohdr_witness as [H1 _]. destruct repeated_voter_witness as [_ [_ H3]].
   destruct strip_witness as [H4 _]. split; [exact H1|]. split; [exact fin_err_witness|]. auto.
 Qed.
+
+(* ======================= third round =======================
+   "Correctly signed for that round and set", about bytes.  [sigv key bytes sig] is the signature
+   verdict on a byte string (ed25519: C29), [hb] gives the bytes of a block hash; the code hands
+   ed25519 the SCALE encoding of FullVote{precommit, vote, round, setID}, which is
+   [vote_payload 4 stage_precommit hash number round setid] = 1 ++ hash ++ number(4 LE) ++
+   round(8 LE) ++ set id(8 LE) (compared with the implementation's encoder on every run).
+   If every verdict bit of the message is [sigv] on those bytes ([well_signed], the situation of
+   the real code), an accepted commit exhibits more than 2n/3 distinct current authorities whose
+   listed signature verifies over the precommit payload, FOR THE COMMIT'S ROUND AND THE CURRENT SET
+   ID, of a vote on the target's chain (or of two different votes). *)
+Theorem C18_accept_signed_bytes : forall sigv hb c auths setid has hf m eff,
+  well_signed sigv hb setid m ->
+  handle_commit c auths setid has hf m = (HAccepted, eff) ->
+  exists ks, NoDup ks /\ 2 * N.of_nat (length auths) < 3 * N.of_nat (length ks)
+    /\ forall k, In k ks -> In k auths /\
+         ((exists v, signed_bytes sigv hb setid m k v /\ is_desc c (v_hash (cm_vote m)) (v_hash v) = DOk true)
+          \/ (exists v1 v2, signed_bytes sigv hb setid m k v1 /\ signed_bytes sigv hb setid m k v2 /\ v1 <> v2)).
+Proof. exact accept_signed_bytes. Qed.
+Print Assumptions C18_accept_signed_bytes.
+
+(* those bytes determine the stage, the vote, the round and the set id: they are not the payload
+   of a prevote, of another vote, of another round or of another set *)
+Theorem C18_payload_determines_round_and_set : forall hb round setid e st h n r i,
+  length (hb (v_hash (e_vote e))) = length h -> st < 256 ->
+  v_num (e_vote e) < 256 ^ N.of_nat 4 -> n < 256 ^ N.of_nat 4 ->
+  round < 256 ^ N.of_nat 8 -> r < 256 ^ N.of_nat 8 -> setid < 256 ^ N.of_nat 8 -> i < 256 ^ N.of_nat 8 ->
+  entry_payload hb round setid e = vote_payload 4 st h n r i ->
+  st = stage_precommit /\ h = hb (v_hash (e_vote e)) /\ n = v_num (e_vote e) /\ r = round /\ i = setid.
+Proof. exact (entry_payload_determines (fun _ _ _ => true)). Qed.
+Print Assumptions C18_payload_determines_round_and_set.
